@@ -90,9 +90,9 @@ SPEC = {
             "faithful protocol machine. Exhaustive: every sequence of <= 3 open/change notifications over four documents (clean LL(1); not "
             "LL(2) -> background error; LALR(1) with conflicts -> background warning; syntax error -> synchronous error) x every "
             "distribution of the task completions over the slots 'inside the window between spawn and the handler's publish of edit j' / "
-            "'after the publish of edit j' x every order inside a slot; 4 notifications over the same four documents where only the edit's "
-            "own task may finish inside its window; thorough: + 4 notifications over {clean, not LL(2), syntax error} where any unfinished task may, "
-            "+ 5 notifications over {clean, not LL(2)} with own-task windows. Plus every catalogue document alone (10 documents incl. LL(2), left recursion, non-productive, LALR variants), the two "
+            "'after the publish of edit j' x every order inside a slot; 4 notifications: quick over {clean, not LL(2)} where only the edit's "
+            "own task may finish inside its window; thorough over all four documents with own-task windows and over {clean, not LL(2)} where any "
+            "unfinished task may finish inside any later window. Plus every catalogue document alone (10 documents incl. LL(2), left recursion, non-productive, LALR variants), the two "
             "witness histories, and 300 (quick) / 3000 (thorough) random histories of 4..9 notifications over the whole catalogue. Cases "
             "alternate between lazy (a task computes only when it is scheduled to finish) and eager (tasks compute as soon as they are spawned; "
             "only their publish is scheduled). non-trivial = at least two notifications and one task completion; distinct = distinct case lines",
